@@ -122,7 +122,8 @@ impl C05 {
                 let mut cfg = SearchCfg::default();
                 cfg.nq = 1 + rng.below(2);
                 cfg.max_goals = 3;
-                let prog = dfs_wrapped(&SearchGen::new(&mut rng, cfg).program());
+                let k = rng.below(5);
+                let prog = dfs_wrapped_split(&SearchGen::new(&mut rng, cfg).program(), k);
                 let ok = match ref_answers(&prog, false) {
                     Ok(a) => a.len() >= 2 && a.len() <= 30,
                     Err(_) => false,
@@ -147,7 +148,7 @@ impl Check for C05 {
         vec![GenSpec { name: "search", quick: 8000, thorough: 400_000 }, GenSpec { name: "wide", quick: 3000, thorough: 100_000 }, GenSpec { name: "fixed", quick: FIXED.len() as u64, thorough: FIXED.len() as u64 }]
     }
     fn rule(&self) -> &'static str {
-        "Finite-tree programs wrapped in dfs { }: nested mode-inferred disjunctions (cond) of 2-6 clauses incl. trivially true/false clauses, conjunctions whose earlier goals have several answers, fresh, member/append/rember on ground and partially ground lists, generated structurally recursive relations (closures) over ground lists, match with alternatives (DFS conde), ==, !=, to nesting depth 3; 'wide' forces disjunctions of 4-6 clauses with answers in the middle clauses. The sequence of answers of the real engine is compared POSITION BY POSITION with the reference depth-first interpreter (tuple variants + equal ground-instance sets of the constraints). A second lane EMITS depth-first programs as Rust source (proto_vulcan_query!), compiles them against the current tree and compares the compiled program's answer sequence with the reference in the same way: the fixed programs, programs `dfs { match t { p1 | p2 | p3 => body, ... } }` in which several alternatives of one arm and several arms match the same list (each binding the pattern variable to a different element), and search programs from the generator above with 2-30 answers; this observes the order produced by the macro expansion, which API-built goal trees bypass. Distinct = distinct program text; non-trivial = the reference yields at least 2 answers (an order exists)."
+        "Finite-tree programs wrapped in dfs { } (the body written as one bracketed clause, as one clause per goal, or split into two clauses): nested mode-inferred disjunctions (cond) of 2-6 clauses incl. trivially true/false clauses, conjunctions whose earlier goals have several answers, fresh, member/append/rember on ground and partially ground lists, generated structurally recursive relations (closures) over ground lists, match with alternatives (DFS conde), ==, !=, to nesting depth 3; 'wide' forces disjunctions of 4-6 clauses with answers in the middle clauses. The sequence of answers of the real engine is compared POSITION BY POSITION with the reference depth-first interpreter (tuple variants + equal ground-instance sets of the constraints). A second lane EMITS depth-first programs as Rust source (proto_vulcan_query!), compiles them against the current tree and compares the compiled program's answer sequence with the reference in the same way: the fixed programs, programs `dfs { match t { p1 | p2 | p3 => body, ... } }` in which several alternatives of one arm and several arms match the same list (each binding the pattern variable to a different element), and search programs from the generator above with 2-30 answers; this observes the order produced by the macro expansion, which API-built goal trees bypass. Distinct = distinct program text; non-trivial = the reference yields at least 2 answers (an order exists)."
     }
     fn assumptions(&self) -> Vec<String> {
         vec!["reference: left-to-right depth-first list-monad interpreter (pvmon::refsem), written independently of the stream engine".into()]
@@ -159,7 +160,7 @@ impl Check for C05 {
         }
     }
     fn required_counters(&self) -> Vec<&'static str> {
-        vec!["sequences_compared", "compiled_sequences_compared", "tag_orpat", "tag_search", "path_mplus_dfs_empty", "path_mplus_dfs_unit", "path_mplus_dfs_lazy", "path_mplus_dfs_cons", "path_bind_dfs_cons", "path_bind_dfs_unit", "path_bind_dfs_lazy", "programs_with_4plus_clause_disjunction"]
+        vec!["sequences_compared", "dfs_bodies_with_several_clauses", "compiled_sequences_compared", "tag_orpat", "tag_search", "path_mplus_dfs_empty", "path_mplus_dfs_unit", "path_mplus_dfs_lazy", "path_mplus_dfs_cons", "path_bind_dfs_cons", "path_bind_dfs_unit", "path_bind_dfs_lazy", "programs_with_4plus_clause_disjunction"]
     }
     fn run_batch(&self, tier: Tier, seed: u64) -> Option<Merged> {
         let cases = Self::surface_cases(tier, seed);
@@ -214,7 +215,12 @@ impl Check for C05 {
                 SearchGen::new(&mut rng, cfg).program()
             }
         };
-        let prog = dfs_wrapped(&inner);
+        // the body of dfs { } as one bracketed clause, one clause per goal, or split in two
+        let split = rng.below(5);
+        let prog = dfs_wrapped_split(&inner, split);
+        if matches!(prog.body.as_slice(), [G::Dfs(cs)] if cs.len() >= 2) {
+            out.count("dfs_bodies_with_several_clauses", 1);
+        }
         let rans = match ref_answers(&prog, false) {
             Ok(a) => a,
             Err(e) => {
